@@ -232,6 +232,34 @@ func (g *Gen) havocComp(st *State, comp string) {
 	st.heap[comp] = g.declare("hv_"+comp, g.compSort(comp))
 }
 
+// wfComp: heap well-formedness for a freshly havocked component: slices stored in it refer
+// to objects that exist in this state.
+func (g *Gen) wfComp(st *State, comp string) {
+	n, ok := st.heap[comp]
+	if !ok {
+		return
+	}
+	al := g.heapGet(st, "alloc")
+	switch srt := g.compSort(comp); srt {
+	case "(Array Int Slice)":
+		g.emit(fmt.Sprintf("(assert (forall ((wfp Int)) (! (<= (sl-ref (select %s wfp)) %s) :pattern ((select %s wfp)))))", n, al, n))
+	case "(Array Int (Array Int Slice))":
+		g.emit(fmt.Sprintf("(assert (forall ((wfp Int) (wfi Int)) (! (<= (sl-ref (select (select %s wfp) wfi)) %s) :pattern ((select (select %s wfp) wfi)))))", n, al, n))
+	default:
+		const pre = "(Array Int (Array Int "
+		if strings.HasPrefix(srt, pre) && strings.HasSuffix(srt, "))") {
+			ss := srt[len(pre) : len(srt)-2]
+			if stt, ok := g.m.structs[ss]; ok && !g.m.opaque[ss] {
+				for fi := 0; fi < stt.NumFields(); fi++ {
+					if g.m.sortOf(stt.Field(fi).Type()) == "Slice" {
+						g.emit(fmt.Sprintf("(assert (forall ((wfp Int) (wfi Int)) (! (<= (sl-ref (%s.%s (select (select %s wfp) wfi))) %s) :pattern ((select (select %s wfp) wfi)))))", ss, fieldName(stt, fi), n, al, n))
+					}
+				}
+			}
+		}
+	}
+}
+
 func (g *Gen) newRef(st *State) string {
 	a := g.heapGet(st, "alloc")
 	n := g.define("ref", "Int", add(a, "1"))
